@@ -1,47 +1,10 @@
 (* C11 — typing of einsum contractions by the MEANING of each axis, and the half plane of reciprocal points (executable). *)
 From Coq Require Import List Ascii Bool ZArith Lia.
-From PyQMC Require Import gen.Ewald2d_Gen.
+From PyQMC Require Import base.Einsum gen.Ewald2d_Gen.
 Import ListNotations.
 
-Definition axis_eqb (a b : axis) : bool :=
-  match a, b with
-  | Ax_walker, Ax_walker | Ax_ion, Ax_ion | Ax_electron, Ax_electron | Ax_pair, Ax_pair | Ax_ionpair, Ax_ionpair
-  | Ax_kpoint, Ax_kpoint | Ax_xyz, Ax_xyz | Ax_one, Ax_one | Ax_two, Ax_two => true
-  | _, _ => false
-  end.
-
-Definition binding := list (ascii * axis).
-Fixpoint lookup (c : ascii) (m : binding) : option axis :=
-  match m with [] => None | (c', a) :: t => if Ascii.eqb c c' then Some a else lookup c t end.
-(* bind the letters of one operand to the meanings of its axes; fail on a length mismatch or on a letter already bound to another meaning *)
-Fixpoint bind_operand (letters : list ascii) (axes : list axis) (m : binding) : option binding :=
-  match letters, axes with
-  | [], [] => Some m
-  | c :: ls, a :: axs =>
-      match lookup c m with
-      | None => bind_operand ls axs ((c, a) :: m)
-      | Some a' => if axis_eqb a a' then bind_operand ls axs m else None
-      end
-  | _, _ => None
-  end.
-Fixpoint bind_all (ins : list (list ascii)) (ops : list (list axis)) (m : binding) : option binding :=
-  match ins, ops with
-  | [], [] => Some m
-  | l :: ins', o :: ops' => match bind_operand l o m with Some m' => bind_all ins' ops' m' | None => None end
-  | _, _ => None
-  end.
-Fixpoint out_axes (out : list ascii) (m : binding) : option (list axis) :=
-  match out with
-  | [] => Some []
-  | c :: t => match lookup c m, out_axes t m with Some a, Some r => Some (a :: r) | _, _ => None end
-  end.
-Definition type_einsum (ins : list (list ascii)) (out : list ascii) (ops : list (list axis)) : option (list axis) :=
-  match bind_all ins ops [] with Some m => out_axes out m | None => None end.
-
-Definition site_typed (s : list (list ascii) * list ascii * list (list axis)) : bool :=
-  let '(ins, out, ops) := s in match type_einsum ins out ops with Some _ => true | None => false end.
 (* what the F6 defect looked like: the ion charges contracted with the electron axis *)
-Definition f6_site : list (list ascii) * list ascii * list (list axis) :=
+Definition f6_site : site :=
   ([["k"%char]; ["i"%char; "j"%char; "k"%char]], ["i"%char], [[Ax_ion]; [Ax_walker; Ax_ion; Ax_electron]]).
 
 (* half plane of in-plane reciprocal points: x > 0 any y, or x = 0 and y > 0 *)
